@@ -429,6 +429,7 @@ type xlat struct {
 	elMut       *elMutInfo // the function edits the children of an element parameter: the edited element is returned beside the results
 	loopDepth   int    // > 0 while the body of a loop is translated
 	elided      string // element type of the slice literal whose untyped element literal is being translated
+	allowObj    *ast.Ident // the occurrence of an object-typed local that is being used as a receiver (see objTypes)
 }
 
 // cret: the translation of `return` with result term [t]
@@ -440,6 +441,16 @@ func (x *xlat) cret(t string) string {
 		return "CRet ((apply_edits " + x.elMut.el.coq + " " + x.elMut.edits.coq + "), " + t + ")"
 	}
 	return "CRet " + t
+}
+
+// exprRecv: e as the receiver of a bound method / the base of a field read or of a map lookup
+func (x *xlat) exprRecv(e ast.Expr) ex {
+	if id, ok := e.(*ast.Ident); ok {
+		saved := x.allowObj
+		x.allowObj = id
+		defer func() { x.allowObj = saved }()
+	}
+	return x.expr(e)
 }
 
 func qualify(t, pkg string, local map[string]bool) string {
@@ -561,6 +572,15 @@ func coqOf(t string) (string, bool) {
 		return typeBind(t), true
 	case mapBinds[t].coq != "":
 		return mapBinds[t].coq, true
+	case strings.HasPrefix(t, "[]"):
+		if c, ok := coqOf(t[2:]); ok {
+			return "list (" + c + ")", true
+		}
+	}
+	if _, et, ok := arrayType(t); ok {
+		if c, ok := coqOf(et); ok {
+			return "list (" + c + ")", true
+		}
 	}
 	return "", false
 }
@@ -691,6 +711,14 @@ func (x *xlat) analyse(body *ast.BlockStmt) {
 			}
 		}
 	}
+	markIndexed := func(e ast.Expr) {
+		// m[k] = v on a local map variable updates the object m denotes
+		if ix, ok := e.(*ast.IndexExpr); ok {
+			if id, ok := ix.X.(*ast.Ident); ok {
+				mark(id, false)
+			}
+		}
+	}
 	ast.Inspect(body, func(n ast.Node) bool {
 		switch s := n.(type) {
 		case *ast.AssignStmt:
@@ -706,6 +734,7 @@ func (x *xlat) analyse(body *ast.BlockStmt) {
 				}
 				_, isIdent := l.(*ast.Ident)
 				mark(l, isIdent)
+				markIndexed(l)
 			}
 		case *ast.IncDecStmt:
 			mark(s.X, true)
@@ -721,6 +750,17 @@ func (x *xlat) analyse(body *ast.BlockStmt) {
 		case *ast.CallExpr:
 			if mb, ok := mutBinds[exprString(s.Fun)]; ok && mb.mut < len(s.Args) {
 				mark(s.Args[mb.mut], false)
+			}
+			// a method that updates the object its receiver (a local variable) denotes; a writer created over a local sink
+			if sel, ok := s.Fun.(*ast.SelectorExpr); ok && recvMutNames[sel.Sel.Name] {
+				if id, ok := sel.X.(*ast.Ident); ok {
+					mark(id, false)
+				}
+			}
+			if i, ok := sinkCtors[exprString(s.Fun)]; ok && i < len(s.Args) {
+				if id, ok := s.Args[i].(*ast.Ident); ok {
+					mark(id, false)
+				}
 			}
 		}
 		return true
@@ -764,6 +804,13 @@ func (x *xlat) expr(e ast.Expr) ex {
 				unsup(n, "int literal")
 			}
 			return ex{term: fmt.Sprintf("(%d)%%Z", z), typ: "int"}
+		case token.CHAR:
+			// a character constant that fits a byte (the only use the subset has for it)
+			r, _, tail, err := strconv.UnquoteChar(n.Value[1:len(n.Value)-1], '\'')
+			if err != nil || tail != "" || r < 0 || r > 255 {
+				unsup(n, "character literal")
+			}
+			return ex{term: fmt.Sprintf("(Ascii.ascii_of_nat %d)", r), typ: "byte"}
 		}
 		unsup(n, "literal kind %v", n.Kind)
 	case *ast.Ident:
@@ -775,6 +822,10 @@ func (x *xlat) expr(e ast.Expr) ex {
 		}
 		if n.Obj != nil {
 			if vi, ok := x.locals[n.Obj]; ok {
+				if objTypes[vi.typ] && x.allowObj != n {
+					// a mutable object held in a local variable: a second reference to it would not see the updates
+					unsup(n, "the object %s is used other than as the receiver of a bound method", n.Name)
+				}
 				return ex{term: vi.coq, typ: vi.typ, valPtr: vi.valPtr}
 			}
 		}
@@ -803,7 +854,7 @@ func (x *xlat) expr(e ast.Expr) ex {
 			}
 			unsup(n, "qualified identifier %s.%s", id.Name, n.Sel.Name)
 		}
-		b := x.expr(n.X)
+		b := x.exprRecv(n.X)
 		if b.typ == "etree.pref" && n.Sel.Name == "Tag" {
 			q := x.freshName("q")
 			return ex{pres: append(append([]pre{}, b.pres...), pre{"opt", q, "(pref_tag " + b.term + ")"}), term: q, typ: "string"}
@@ -894,6 +945,12 @@ func (x *xlat) expr(e ast.Expr) ex {
 			name := x.freshName("x")
 			pres := append(append(append([]pre{}, b.pres...), i.pres...), pre{"opt", name, "(zindex " + b.term + " " + i.term + ")"})
 			return ex{pres: pres, term: name, typ: b.typ[2:]}
+		}
+		if _, elem, ok := arrayType(b.typ); ok && i.typ == "int" {
+			// a fixed-size array is a list of exactly that length (composite pads it): an index out of range panics
+			name := x.freshName("x")
+			pres := append(append(append([]pre{}, b.pres...), i.pres...), pre{"opt", name, "(zindex " + b.term + " " + i.term + ")"})
+			return ex{pres: pres, term: name, typ: elem}
 		}
 		unsup(n, "index into %s", b.typ)
 	case *ast.SliceExpr:
@@ -1061,32 +1118,60 @@ func (x *xlat) binary(n *ast.BinaryExpr) ex {
 }
 
 func (x *xlat) composite(n *ast.CompositeLit) ex {
-	var t string
-	if n.Type == nil {
-		// {…} as an element of a slice literal []T{…}: the element type is T
-		if x.elided == "" || strings.HasPrefix(x.elided, "*") {
-			unsup(n, "composite literal without a type")
-		}
-		t = x.elided
-	} else {
-		t = x.qualifyRoot(typeStr(n.Type))
+	return x.compositeOf(n, x.qualifyRoot(typeStr(n.Type)))
+}
+
+// arrayType: "[k]T" -> k, T
+func arrayType(t string) (int, string, bool) {
+	if !strings.HasPrefix(t, "[") || strings.HasPrefix(t, "[]") {
+		return 0, "", false
 	}
-	x.elided = ""
-	if strings.HasPrefix(t, "[]") {
+	j := strings.Index(t, "]")
+	k, err := strconv.Atoi(t[1:j])
+	if err != nil || k < 0 {
+		return 0, "", false
+	}
+	return k, t[j+1:], true
+}
+
+// compositeOf: a composite literal of type t (the literal's own type, or the element type of the enclosing literal when elided)
+func (x *xlat) compositeOf(n *ast.CompositeLit, t string) ex {
+	elems := func(et string) ([]pre, []string) {
 		var pres []pre
 		var items []string
 		for _, el := range n.Elts {
+			if _, keyed := el.(*ast.KeyValueExpr); keyed {
+				unsup(n, "keyed element in a slice / array literal")
+			}
 			var v ex
 			if cl, ok := el.(*ast.CompositeLit); ok && cl.Type == nil {
-				x.elided = t[2:]
-				v = x.composite(cl)
+				v = x.compositeOf(cl, et)
 			} else {
 				v = x.expr(el)
 			}
 			pres = append(pres, v.pres...)
-			items = append(items, v.term)
+			items = append(items, x.coerce(n, v, et))
+		}
+		return pres, items
+	}
+	if strings.HasPrefix(t, "[]") {
+		pres, items := elems(t[2:])
+		return ex{pres: pres, term: "[" + strings.Join(items, "; ") + "]", typ: t}
+	}
+	if k, et, ok := arrayType(t); ok {
+		// [k]T{e1, .., ej}: the missing elements are zero values
+		pres, items := elems(et)
+		if len(items) > k {
+			unsup(n, "array literal longer than its type")
+		}
+		for len(items) < k {
+			items = append(items, zeroOf(n, et))
 		}
 		return ex{pres: pres, term: "[" + strings.Join(items, "; ") + "]", typ: t}
+	}
+	if lit, ok := emptyLitBinds[t]; ok && len(n.Elts) == 0 {
+		// T{} of a reference type (a map): a fresh, non-nil, empty object -- not the zero value of T
+		return ex{term: lit, typ: t}
 	}
 	keyed := map[string]ast.Expr{}
 	var order []string
@@ -1193,6 +1278,15 @@ func (x *xlat) call(n *ast.CallExpr) ex {
 	if exprString(n) == "sp.Clock.Now()" {
 		return ex{term: "now", typ: "time.Time"}
 	}
+	if at, ok := n.Fun.(*ast.ArrayType); ok {
+		// []byte(s): strings and byte slices have the same representation
+		if typeStr(at) == "[]byte" && len(n.Args) == 1 {
+			if a := x.expr(n.Args[0]); a.typ == "string" || a.typ == "[]byte" {
+				return ex{pres: a.pres, term: a.term, typ: "[]byte"}
+			}
+		}
+		unsup(n, "conversion to %s", typeStr(at))
+	}
 	if id, ok := n.Fun.(*ast.Ident); ok && id.Obj == nil {
 		switch id.Name {
 		case "len":
@@ -1263,6 +1357,29 @@ func (x *xlat) call(n *ast.CallExpr) ex {
 	if r, ok := x.externCall(n); ok {
 		return r
 	}
+	// a package-level function (no receiver) that is itself translated
+	if id, ok := n.Fun.(*ast.Ident); ok {
+		if fd := x.funcs[id.Name]; fd != nil && fd.Recv == nil && (id.Obj == nil || id.Obj.Decl == fd) {
+			kind, ok := x.done[id.Name]
+			if !ok {
+				unsup(n, "call of untranslated function %s", id.Name)
+			}
+			var args []string
+			if !x.noNow {
+				args = append(args, "now")
+			}
+			pres, args := x.calleeArgs(n, fd, nil, args)
+			name := x.freshName("r")
+			pres = append(pres, pre{"pm", name, "(G_" + id.Name + " " + strings.Join(args, " ") + ")"})
+			if kind == "error" {
+				return ex{pres: pres, term: "(err_of_res " + name + ")", typ: "error"}
+			}
+			if strings.HasSuffix(kind, ",error") {
+				return ex{pres: pres, term: name, typ: "res:" + kind}
+			}
+			return ex{pres: pres, term: name, typ: kind}
+		}
+	}
 	if sel, ok := n.Fun.(*ast.SelectorExpr); ok {
 		// method of a local struct value whose translation exists (other receiver types than the SP)
 		if id, ok := sel.X.(*ast.Ident); ok && id.Obj != nil {
@@ -1312,7 +1429,6 @@ func (x *xlat) call(n *ast.CallExpr) ex {
 				if !ok {
 					unsup(n, "call of untranslated method %s", sel.Sel.Name)
 				}
-				var pres []pre
 				recvArg := vi.coq
 				if cm := recvModel[sel.Sel.Name]; cm != x.recvCur {
 					// the callee reads a part of the SP that is modelled by another record
@@ -1322,12 +1438,11 @@ func (x *xlat) call(n *ast.CallExpr) ex {
 					}
 					recvArg = "(" + proj + " " + vi.coq + ")"
 				}
-				args := []string{recvArg, "now"}
-				for _, a := range n.Args {
-					v := x.expr(a)
-					pres = append(pres, v.pres...)
-					args = append(args, v.term)
+				args := []string{recvArg}
+				if !x.noNow {
+					args = append(args, "now")
 				}
+				pres, args := x.calleeArgs(n, x.funcs[sel.Sel.Name], nil, args)
 				name := x.freshName("r")
 				pres = append(pres, pre{"pm", name, "(G_" + sel.Sel.Name + " " + strings.Join(args, " ") + ")"})
 				if kind == "error" {
@@ -1373,6 +1488,39 @@ func (x *xlat) call(n *ast.CallExpr) ex {
 	return ex{}
 }
 
+// calleeArgs: the arguments of a call of a translated function.  A pointer parameter the callee assumes non-nil (bindParam)
+// receives the pointee: handing it a nil-able pointer is guarded (nil = panic outcome, the callee's precondition fails)
+func (x *xlat) calleeArgs(n *ast.CallExpr, fd *ast.FuncDecl, pres []pre, args []string) ([]pre, []string) {
+	var ptypes []string
+	if fd != nil {
+		for _, f := range fd.Type.Params.List {
+			for range f.Names {
+				ptypes = append(ptypes, x.qualifyRoot(typeStr(f.Type)))
+			}
+		}
+	}
+	if len(ptypes) != len(n.Args) {
+		unsup(n, "call arity")
+	}
+	for i, a := range n.Args {
+		v := x.expr(a)
+		pres = append(pres, v.pres...)
+		t := v.term
+		if pt := ptypes[i]; strings.HasPrefix(pt, "*") && typeBinds[pt[1:]] != "" {
+			switch {
+			case nilableParams[pt] && v.valPtr:
+				t = "(Some " + t + ")"
+			case !nilableParams[pt] && !v.valPtr:
+				p := x.freshName("p")
+				pres = append(pres, pre{"opt", p, t})
+				t = p
+			}
+		}
+		args = append(args, t)
+	}
+	return pres, args
+}
+
 // externCall: calls bound by callBinds (functions of other packages, methods of opaque handles, fmt.Errorf)
 func (x *xlat) externCall(n *ast.CallExpr) (ex, bool) {
 	name := exprString(n.Fun)
@@ -1398,13 +1546,21 @@ func (x *xlat) externCall(n *ast.CallExpr) (ex, bool) {
 	if b, ok := callBinds[name]; ok {
 		if id, isId := n.Fun.(*ast.Ident); !isId || id.Obj == nil || x.locals[id.Obj] == nil {
 			cb, found = b, true
+			if sel, isSel := n.Fun.(*ast.SelectorExpr); isSel {
+				for _, u := range b.use {
+					if u < 0 && recv == nil { // the binding reads the receiver
+						r := x.exprRecv(sel.X)
+						recv = &r
+					}
+				}
+			}
 		}
 	}
 	if !found {
 		if sel, ok := n.Fun.(*ast.SelectorExpr); ok {
 			if id, ok := sel.X.(*ast.Ident); ok && id.Obj != nil && x.locals[id.Obj] != nil {
 				if b, ok := callBinds["M:"+x.locals[id.Obj].typ+"."+sel.Sel.Name]; ok {
-					r := x.expr(sel.X)
+					r := x.exprRecv(sel.X)
 					cb, recv, found = b, &r, true
 				}
 			}
@@ -1559,8 +1715,8 @@ func (x *xlat) block(list []ast.Stmt, cur, out, loop []*varInfo, inLoop bool) st
 		} else {
 			t := x.qualifyRoot(typeStr(vs.Type))
 			v = ex{typ: t, term: zeroOf(n, t)}
-			if ct, ok := coqOf(t); ok && v.term == "None" {
-				v.term = "(None : " + ct + ")"
+			if ct, ok := coqOf(t); ok && (v.term == "None" || v.term == "[]") {
+				v.term = "(" + v.term + " : " + ct + ")"
 			}
 		}
 		vi := x.declare(vs.Names[0], v.typ, false)
@@ -1703,6 +1859,12 @@ func (x *xlat) block(list []ast.Stmt, cur, out, loop []*varInfo, inLoop bool) st
 				if t, ok := x.builderStmt(n, c, cur, cont); ok {
 					return t
 				}
+			}
+		}
+		// X.M(args) where M updates the object the local variable X denotes; results dropped
+		if c, ok := n.X.(*ast.CallExpr); ok {
+			if t, ok := x.recvMutCall(n, c, nil, cur, cont, nil); ok {
+				return t
 			}
 		}
 		unsup(n, "expression statement %s", exprString(n.X))
@@ -1896,6 +2058,13 @@ func zeroOf(n ast.Node, t string) string {
 }
 
 func (x *xlat) assign(n *ast.AssignStmt, cur []*varInfo, cont func([]*varInfo) string) string {
+	if n.Tok == token.ADD_ASSIGN && len(n.Lhs) == 1 && len(n.Rhs) == 1 {
+		// v += e  is  v = v + (e)  for a variable v
+		if id, ok := n.Lhs[0].(*ast.Ident); ok {
+			sum := &ast.BinaryExpr{X: id, OpPos: n.TokPos, Op: token.ADD, Y: n.Rhs[0]}
+			return x.assign(&ast.AssignStmt{Lhs: n.Lhs, TokPos: n.TokPos, Tok: token.ASSIGN, Rhs: []ast.Expr{sum}}, cur, cont)
+		}
+	}
 	if n.Tok != token.DEFINE && n.Tok != token.ASSIGN {
 		unsup(n, "assignment operator %v", n.Tok)
 	}
@@ -1963,6 +2132,14 @@ func (x *xlat) assign(n *ast.AssignStmt, cur []*varInfo, cont func([]*varInfo) s
 						return wrapPres(pres, fmt.Sprintf("let %s := (fst %s) in let %s := (snd %s) in %s", x.bt.coq, q, vi.coq, q, cont(c)), "CPanic")
 					}
 				}
+			}
+		}
+	}
+	// r1, .., rk (:)= X.M(args) where M updates the object the local variable X denotes
+	if len(n.Rhs) == 1 {
+		if call, ok := n.Rhs[0].(*ast.CallExpr); ok {
+			if t, ok := x.recvMutCall(n, call, n.Lhs, cur, cont, bindIdent); ok {
+				return t
 			}
 		}
 	}
@@ -2088,7 +2265,7 @@ func (x *xlat) assign(n *ast.AssignStmt, cur []*varInfo, cont func([]*varInfo) s
 		}
 		if ix, ok := n.Rhs[0].(*ast.IndexExpr); ok {
 			// v, ok := m[k]
-			m := x.expr(ix.X)
+			m := x.exprRecv(ix.X)
 			k := x.expr(ix.Index)
 			mb, isMap := mapBinds[m.typ]
 			if !isMap || k.typ != "string" {
@@ -2118,6 +2295,7 @@ func (x *xlat) assign(n *ast.AssignStmt, cur []*varInfo, cont func([]*varInfo) s
 		}
 		vt := strings.TrimSuffix(strings.TrimPrefix(r.typ, "res:"), ",error")
 		va, c1 := bindIdent(a, vt, false, cur)
+		x.noteSink(n, call, a, va)
 		vb, c2 := bindIdent(b, "error", false, c1)
 		val := "(ptr_of_res " + r.term + ")"
 		if !isPtr(vt) {
@@ -2195,6 +2373,21 @@ func (x *xlat) assign(n *ast.AssignStmt, cur []*varInfo, cont func([]*varInfo) s
 		}
 		return x.storeField(n, vi, st, l.Sel.Name, fb, v, cur, cont)
 	case *ast.IndexExpr:
+		if id, ok := l.X.(*ast.Ident); ok {
+			// m[k] = v on a local map variable; a nil map panics
+			if id.Obj == nil || x.locals[id.Obj] == nil || !x.mutable[id.Obj] {
+				unsup(n, "index assignment through %s", id.Name)
+			}
+			vi := x.locals[id.Obj]
+			mb, isMap := mapBinds[vi.typ]
+			k := x.expr(l.Index)
+			if !isMap || k.typ != "string" || v.typ != mb.elem || !inVars(cur, vi) {
+				unsup(n, "index assignment into %s", vi.typ)
+			}
+			mp := x.freshName("m")
+			pres := append(append(append([]pre{}, v.pres...), k.pres...), pre{"opt", mp, vi.coq})
+			return wrapPres(pres, fmt.Sprintf("let %s := (Some (%s %s %s %s)) in %s", vi.coq, mb.set, k.term, v.term, mp, cont(cur)), "CPanic")
+		}
 		// x.f[k] = v on a map-typed field of a local struct
 		sel, ok := l.X.(*ast.SelectorExpr)
 		if !ok {
@@ -2746,10 +2939,14 @@ func (x *xlat) function(out *bytes.Buffer, name string) {
 				cur0 = append(cur0, vi)
 			}
 		}
-		if fd.Recv == nil || len(fd.Recv.List) != 1 || len(fd.Recv.List[0].Names) != 1 {
-			unsup(fd, "receiver")
+		if fd.Recv != nil {
+			if len(fd.Recv.List) != 1 || len(fd.Recv.List[0].Names) != 1 {
+				unsup(fd, "receiver")
+			}
+			bindParam(fd.Recv.List[0].Names[0], fd.Recv.List[0].Type)
+		} else if recvModel[name] != "" {
+			unsup(fd, "receiver model for a function without receiver")
 		}
-		bindParam(fd.Recv.List[0].Names[0], fd.Recv.List[0].Type)
 		if !x.noNow {
 			params = append(params, "(now : instant)")
 		}
